@@ -1318,6 +1318,18 @@ impl Allocator {
     }
 }
 
+#[cfg(feature = "verif-hooks")]
+impl Allocator {
+    /// Verification hook: register an atom entry `[start, end)` without backing
+    /// bytes, for out-of-tree harnesses of code that only reads atom *lengths*
+    /// (cost computations over multi-gigabyte operands). Never used by clvmr.
+    pub fn verif_atom_span(&mut self, start: u32, end: u32) -> NodePtr {
+        let idx = self.atom_vec.len();
+        self.atom_vec.push(AtomBuf { start, end });
+        self.mk_node(ObjectType::Bytes, idx)
+    }
+}
+
 #[cfg(test)]
 mod tests {
     use super::*;
